@@ -379,3 +379,66 @@ func TestRepeatMarshal(t *testing.T) {
 		return msgCase{genHdr(t), name, smbgen.Snapshot(cmd), rapid.IntRange(2, 5).Draw(t, "repeats")}
 	}, checkRepeat, func(c msgCase) bool { return c.Repeats >= 2 })
 }
+
+// ---- block sizes up to the 255-word / 65535-byte limits ---------------------------------------------------
+//
+// No command structure emits more than a few dozen words, so the limits are reached with raw wire
+// bytes: an SMB_COM_ECHO request (EchoCount word, data block = echo data) whose parameter block is
+// given w words and whose data block b bytes. Decoding must attribute exactly 2*w bytes to the words
+// and exactly b bytes to the data, whatever w and b are.
+
+type blockCase struct {
+	Words int `json:"words"`
+	Bytes int `json:"bytes"`
+}
+
+func checkBlockLimits(c blockCase) []vf.Finding {
+	h := header.NewHeader()
+	h.Command = codes.CommandCode(0x2B)
+	wire, _ := h.Marshal()
+	wire = append(wire, byte(c.Words))
+	words := make([]byte, 2*c.Words)
+	for i := range words {
+		words[i] = byte(0x21 + i%0x5d)
+	}
+	wire = append(wire, words...)
+	wire = append(wire, byte(c.Bytes), byte(c.Bytes>>8))
+	data := make([]byte, c.Bytes)
+	for i := range data {
+		data[i] = byte(0xA0 + i%0x53)
+	}
+	wire = append(wire, data...)
+	m := message.NewMessage()
+	if err := safeUnmarshal(m, wire); err != nil {
+		if c.Words == 0 {
+			return nil // an empty parameter block is an error response: decoders may stop there
+		}
+		return []vf.Finding{vf.F("Message.Unmarshal", "well-framed-message-rejected", "%d words, %d bytes: %v", c.Words, c.Bytes, err)}
+	}
+	var fs []vf.Finding
+	p, d := m.Command.GetParameters(), m.Command.GetData()
+	if p == nil || d == nil {
+		return []vf.Finding{vf.F("Message.Unmarshal", "blocks-missing-after-decode", "")}
+	}
+	if int(p.WordCount) != c.Words || !bytes.Equal(p.GetBytes(), words) {
+		fs = append(fs, vf.F("Parameters.Unmarshal", "parameter-block-misframed", "%d words on the wire, decoded %d words (%d bytes)", c.Words, p.WordCount, len(p.GetBytes())))
+	}
+	if int(d.ByteCount) != c.Bytes || !bytes.Equal(d.GetBytes(), data) {
+		got := d.GetBytes()
+		fs = append(fs, vf.F("Data.Unmarshal", "data-block-misframed", "%d words / %d bytes on the wire: decoded byte count %d, first data bytes %x want %x", c.Words, c.Bytes, d.ByteCount, got[:min(len(got), 6)], data[:min(len(data), 6)]))
+	}
+	return fs
+}
+
+func TestBlockLimits(t *testing.T) {
+	s := vf.Begin(t, P, "block-limits-exhaustive")
+	s.SetExhaustive()
+	s.Note("every word count 0..255 crossed with byte counts {0,1,2,255,256,257,4096,65534,65535}")
+	vf.Enum(s, func(yield func(blockCase)) {
+		for w := 0; w <= 255; w++ {
+			for _, b := range []int{0, 1, 2, 255, 256, 257, 4096, 65534, 65535} {
+				yield(blockCase{w, b})
+			}
+		}
+	}, checkBlockLimits, func(c blockCase) bool { return c.Words > 0 && c.Bytes > 0 })
+}
